@@ -11,10 +11,10 @@ export PXSIM_NO_SHRINK=1      # the verdict is what the sweep records; minimised
 R=$VERIF_REPO
 OUT=${OUT:-/tmp/mut/final_sweep.tsv}
 : > $OUT
-for d in /tmp/mut/C??/? /tmp/mut2/C??/? /tmp/mut3/C??/? /tmp/mut4/C??/? /tmp/mut5/C??/? /tmp/mut6/C??/? /tmp/mut7/C??/? /tmp/mut8/C??/? /tmp/mut9/C??/? /tmp/mut10/C??/?; do
+for d in /tmp/mut/C??/? /tmp/mut2/C??/? /tmp/mut3/C??/? /tmp/mut4/C??/? /tmp/mut5/C??/? /tmp/mut6/C??/? /tmp/mut7/C??/? /tmp/mut8/C??/? /tmp/mut9/C??/? /tmp/mut10/C??/? /tmp/mut11/C??/?; do
   [ -f $d/patch.diff ] || continue
   prop=$(basename $(dirname $d)); n=$(basename $d)
-  case $d in /tmp/mut2/*) id=$prop-r2-$n;; /tmp/mut3/*) id=$prop-r3-$n;; /tmp/mut4/*) id=$prop-r4-$n;; /tmp/mut5/*) id=$prop-r5-$n;; /tmp/mut6/*) id=$prop-r6-$n;; /tmp/mut7/*) id=$prop-r7-$n;; /tmp/mut8/*) id=$prop-r8-$n;; /tmp/mut9/*) id=$prop-r9-$n;; /tmp/mut10/*) id=$prop-r10-$n;; *) id=$prop-$n;; esac
+  case $d in /tmp/mut2/*) id=$prop-r2-$n;; /tmp/mut3/*) id=$prop-r3-$n;; /tmp/mut4/*) id=$prop-r4-$n;; /tmp/mut5/*) id=$prop-r5-$n;; /tmp/mut6/*) id=$prop-r6-$n;; /tmp/mut7/*) id=$prop-r7-$n;; /tmp/mut8/*) id=$prop-r8-$n;; /tmp/mut9/*) id=$prop-r9-$n;; /tmp/mut10/*) id=$prop-r10-$n;; /tmp/mut11/*) id=$prop-r11-$n;; *) id=$prop-$n;; esac
   [ -n "$ONLY" ] && ! echo " $ONLY " | grep -q " $id " && continue
   P=$prop
   [ "$id" = "C08-3" ] && P=C02
